@@ -198,10 +198,13 @@ class VirtualTimeScheduler(PeriodicScheduler):
 
         with self._lock:
             self._is_enabled = False
-            if isinstance(self._clock, datetime):
-                self._clock = dt
-            else:
-                self._clock = self.to_seconds(dt)
+            # An action may have moved the clock past the target (sleep);
+            # the clock never moves backwards.
+            if self.now < dt:
+                if isinstance(self._clock, datetime):
+                    self._clock = dt
+                else:
+                    self._clock = self.to_seconds(dt)
 
     def advance_by(self, time: typing.RelativeTime) -> None:
         """Advances the schedulers clock by the specified relative time,
